@@ -17,8 +17,13 @@
    C09_document(_lead)); and - section 6 - it PRODUCES THE SAME DIAGNOSTICS: the formatted text of a comment-free
    syntactically valid program (well-typed or not) is analysed to the same tree and the same table, and its diagnostics
    are the same messages in the same order on the same token-index ranges (C09_same_diagnostics).
-   STATED, NOT PROVED: C09_full_statement for programs with comments in gaps where the printer hoists or drops them
-   (C10's known findings); validated on the implementation by the check. *)
+   Section 7 removes the restriction on the comments for the TOKEN HALF of the property: for EVERY valid program with
+   comments in ANY gaps (inside expressions, headers, declarations, in front of `}` / `else` / EOF ...) the printer does not
+   panic and the formatted text lexes, without lexical error, to the same non-comment tokens - kinds and literal values, in
+   order (C09_tokens_any, C09_document_any); its structure is that of [kept p], the program with the comments where the
+   printer puts them (C09_structure_any; which comments are lost is C10's business).
+   STATED, NOT PROVED: the second half of C09_full_statement (`syntactically_valid out` as a statement about
+   [program_clean]) for programs with comments, and "same diagnostics" for programs with comments. *)
 From Coq Require Import String.
 From Spl Require Import Model.Format Model.Lexer Proofs.FormatProofs.
 From Spl Require Model.Doc.
@@ -161,8 +166,8 @@ Proof. vm_compute. repeat split; tauto. Qed.
      C09_document  : from a document: a text that lexes to the tokens of such a program (and [prog_ok]: the dangling-else
                      shape, needed for the parser round trip C04) is formatted to a text with the same token kinds.
    Of [C09_full_statement] this proves the token half (`code_kinds toks' = code_kinds toks`) for all documents that are
-   layouts of valid comment-free programs; open: programs with comments (the printer then emits comment lines in the
-   covered gaps and drops the others, C10) and "syntactically_valid out" as a statement about [program_clean]. *)
+   layouts of valid comment-free programs; programs with comments: sections 5 (leading positions, comments preserved) and
+   7 (anywhere); open: "syntactically_valid out" as a statement about [program_clean]. *)
 From Spl Require Import Spec.Grammar Proofs.LexerProofs Proofs.RenderProofs Proofs.PipelineText
   Proofs.FormatStructText Proofs.FormatStructProg.
 From Spl Require Spec.LexSpec.
@@ -273,8 +278,9 @@ Qed.
    the printer returns the printed forms of ALL tokens of the program, comments included, in the original order: every comment
    with text s is emitted exactly once, as the line "// " + trim s + LF ([show_kind (Comment s)]), and the text lexes to the same
    tokens, a comment with text s becoming the comment with text " " + trim s ([canon]).
-   Not covered: comments inside assignments / calls / parameters / variable declarations (the printer moves them in front of the
-   construct, so the token ORDER changes) and the gaps where the printer loses the comment (C10). *)
+   Not covered HERE: comments inside assignments / calls / parameters / variable declarations (the printer moves them in front of
+   the construct, so the token ORDER changes) and the gaps where the printer loses the comment (C10) - for those see section 7,
+   which proves the non-comment half for every valid program. *)
 From Spl Require Import Proofs.FormatStructExpr Proofs.FormatStructStmt.
 
 Example C09_lead_only_unfold :
@@ -464,3 +470,166 @@ Example C09_same_diagnostics_ex :
   | _, _ => False
   end.
 Proof. vm_compute. eexists. repeat split; try reflexivity. discriminate. Qed.
+
+(* ================================================================================================
+   7. Part (A) with comments ANYWHERE - the token half of C09 for every valid program (Proofs/FormatAny*.v)
+
+   No hypothesis on the comment slots.  [pp_prog f p] (Proofs/FormatAnyPP.v, FormatAnyProg.v) is a printer over the abstract
+   syntax that treats the comment slots the way the Rust printers treat the token slices: expressions, variables and type
+   expressions print no comment (IntLiteral searches its slice for the literal and skips comments); `;`, assignments, calls,
+   parameters and variable declarations print ALL comments of their token range in front of the construct
+   (add_all_comments); if / while / blocks / type and procedure declarations print the comments in front of their first token
+   only (add_leading_comments); fmt_branch prints none for a block; nothing prints the comments in front of EOF.
+     C09_printer_any   : on the mandated tree and any token vector with the program's kinds the printer returns [pp_prog f p]
+                         - in particular it never panics (no validity needed);
+     C09_kept_*        : [kept p] - p with every unprinted slot emptied and the hoisted comments moved in front of their
+                         construct - is printed to the same text, has its comments in leading positions only (section 5), is
+                         valid when p is, and has the same non-comment tokens in the same order and no new comment;
+     C09_structure_any : so the formatted text is the printed forms of the tokens of [kept p] woven with admissible whitespace;
+     C09_tokens_any    : it lexes, without lexical error, to the same non-comment kinds and values as p;
+     C09_document_any  : from a document: EVERY text that lexes to the tokens of a valid program (any comments) is formatted
+                         to a text with the same non-comment tokens.  This is the token half of [C09_full_statement] for all
+                         layouts of all valid abstract programs.
+   No defect was found: hoisted comments are always printed as "// " + trimmed text + LF, so no token can be swallowed. *)
+From Spl Require Import Proofs.FormatAnyPP Proofs.FormatAnyProg Proofs.FormatAnyKept Proofs.FormatAnyThm.
+
+Example C09_kept_unfold :
+  (forall p, kept p = {| a_decls := map k_decl (a_decls p); a_ceof := [] |})
+  /\ (forall c1 c2 x c3 t c4, k_decl (DType c1 c2 x c3 t c4) = DType c1 [] x [] (s_type t) [])
+  /\ (forall c1 c2 x c3 ps c4 c5 vs b c6,
+        k_decl (DProc c1 c2 x c3 ps c4 c5 vs b c6) = DProc c1 [] x [] (s_sep k_param ps) [] [] (map k_vardecl vs) (k_stmts b) [])
+  /\ (forall c x cc t, k_param (PVal c x cc t) = PVal (cmts (fl_param (PVal c x cc t))) x [] (s_type t))
+  /\ (forall v, k_vardecl v = {| v_c1 := cmts (fl_vardecl v); v_c2 := []; v_x := v_x v; v_c3 := []; v_t := s_type (v_t v); v_c4 := [] |})
+  /\ (forall c, k_stmt (SEmp c) = SEmp c)
+  /\ (forall v c1 e c2, k_stmt (SAsg v c1 e c2) = SAsg (set_lead (cmts (fl_stmt (SAsg v c1 e c2))) (s_var v)) [] (s_cmp e) [])
+  /\ (forall c1 f c2 a c3 c4, k_stmt (SCal c1 f c2 a c3 c4) = SCal (cmts (fl_stmt (SCal c1 f c2 a c3 c4))) f [] (s_sep s_cmp a) [] [])
+  /\ (forall c1 c2 e c3 t, k_stmt (SIfT c1 c2 e c3 t) = SIfT c1 [] (s_cmp e) [] (k_branch t))
+  /\ (forall c1 c2 e c3 t c4 s, k_stmt (SIfE c1 c2 e c3 t c4 s) = SIfE c1 [] (s_cmp e) [] (k_branch t) [] (k_branch s))
+  /\ (forall c1 c2 e c3 t, k_stmt (SWhl c1 c2 e c3 t) = SWhl c1 [] (s_cmp e) [] (k_branch t))
+  /\ (forall c1 b c2, k_stmt (SBlk c1 b c2) = SBlk c1 (k_stmts b) [])
+  /\ (forall t, k_branch t = match t with SBlk _ b _ => SBlk [] (k_stmts b) [] | _ => k_stmt t end)
+  /\ (forall c x, s_var (AName c x) = AName [] x) /\ (forall c l, s_fac (FLit c l) = FLit [] l)
+  /\ (forall c1 e c2, s_fac (FPar c1 e c2) = FPar [] (s_cmp e) [])
+  /\ (forall ks, cmts ks = flat_map (fun k => match k with Comment s => [s] | _ => [] end) ks)
+  /\ (forall ks, code ks = filter (fun k => negb (match k with Comment _ => true | _ => false end)) ks).
+Proof. repeat split; reflexivity. Qed.
+
+(* the printer on the mandated tree: total, and a function of the abstract program *)
+Theorem C09_printer_any : forall f p toks,
+  map tk toks = flatten p ++ [Eof] -> fmt_program f (expected p) toks = FOk (pp_prog f p).
+Proof. exact fmt_program_pp. Qed.
+Print Assumptions C09_printer_any.
+
+Theorem C09_kept_same_text : forall f p, pp_prog f (kept p) = pp_prog f p.
+Proof. exact pp_kept. Qed.
+Print Assumptions C09_kept_same_text.
+
+Theorem C09_kept_lead_only : forall p, aprog_valid p = true -> lead_only (kept p) = true /\ aprog_valid (kept p) = true.
+Proof. intros p H. split; [apply kept_lead_only | apply kept_valid]; exact H. Qed.
+Print Assumptions C09_kept_lead_only.
+
+Theorem C09_kept_tokens : forall p,
+  code (flatten (kept p)) = code (flatten p) /\ incl (cmts (flatten (kept p))) (cmts (flatten p)) /\ prog_ok (kept p) = prog_ok p.
+Proof. intros p. split; [apply kept_code | split; [apply kept_comments | apply kept_prog_ok]]. Qed.
+Print Assumptions C09_kept_tokens.
+
+Theorem C09_structure_any : forall p toks f,
+  (ind_sym f = 32 \/ ind_sym f = 9) -> aprog_valid p = true -> map tk toks = flatten p ++ [Eof] ->
+  exists txt gaps,
+    fmt_program f (expected p) toks = FOk txt /\
+    txt = weave gaps (map show_kind (flatten (kept p))) /\
+    gaps_ok (flatten (kept p)) gaps /\
+    code (flatten (kept p)) = code (flatten p) /\ incl (cmts (flatten (kept p))) (cmts (flatten p)) /\
+    Forall (fun g => forallb is_ws g = true) gaps.
+Proof. exact structure_any. Qed.
+Print Assumptions C09_structure_any.
+
+Theorem C09_tokens_any : forall p toks f txt,
+  (ind_sym f = 32 \/ ind_sym f = 9) -> aprog_valid p = true -> map tk toks = flatten p ++ [Eof] ->
+  fmt_program f (expected p) toks = FOk txt ->
+  exists toks', lex txt = Some toks' /\ code_kinds toks' = code_kinds toks /\ Forall (fun t => terr t = []) toks'.
+Proof. exact tokens_any. Qed.
+Print Assumptions C09_tokens_any.
+
+Theorem C09_total_any : forall p toks f, map tk toks = flatten p ++ [Eof] -> exists txt, fmt_program f (expected p) toks = FOk txt.
+Proof. exact total_any. Qed.
+Print Assumptions C09_total_any.
+
+Theorem C09_document_any : forall p doc toks ins ts,
+  prog_ok p = true -> aprog_valid p = true -> lex doc = Some toks -> map tk toks = flatten p ++ [Eof] ->
+  exists txt toks',
+    formatted_text doc ins ts = Done txt /\ lex txt = Some toks' /\
+    code_kinds toks' = code_kinds toks /\ Forall (fun t => terr t = []) toks'.
+Proof. exact document_any. Qed.
+Print Assumptions C09_document_any.
+
+(* ... and the comments of the formatted text are exactly those of [kept p], trimmed, in order *)
+Theorem C09_comments_any : forall p toks f txt toks',
+  (ind_sym f = 32 \/ ind_sym f = 9) -> aprog_valid p = true -> map tk toks = flatten p ++ [Eof] ->
+  fmt_program f (expected p) toks = FOk txt -> lex txt = Some toks' ->
+  comment_bodies toks' = map trim (cmts (flatten (kept p))).
+Proof. exact comments_any. Qed.
+Print Assumptions C09_comments_any.
+
+(* comments in 19 gaps, 15 of them not leading: inside a type declaration, between a parameter's name and `:`, in front of a
+   comma, after `ref`, in front of `)` and `{` of the procedure header, inside a variable declaration (twice), inside an
+   expression, between `if` and `(`, inside the condition, in front of a block that is a branch, in front of its `}`, in
+   front of `else`, inside an argument list, in front of the procedure's `}`, in front of EOF *)
+Definition c09_aprog : aprog :=
+  {| a_decls :=
+       [DType [] [] (str "t") [] (TName [str " ct"] (str "int")) [];
+        DProc [] [] (str "f") []
+          (Some (PVal [] (str "a") [str " pa"] c09_int, [([str " pb"], PRef [] [str " pc"] (str "b") [] (TName [] (str "t")))]))
+          [str " pd"] [str " pe"]
+          [{| v_c1 := []; v_c2 := []; v_x := str "x"; v_c3 := [str " va"]; v_t := c09_int; v_c4 := [str " vb"] |}]
+          (SCons (SAsg (c09_v "x") [] (CAdd (ABin (AMul (MFac (FLit [] (LDec 1)))) [] APlus (MFac (FLit [str " e1"] (LDec 2))))) [])
+          (SCons (SIfE [] [str " i1"] (c09_f (FVar (c09_v "a"))) [str " i2"]
+                    (SBlk [str " i3"] (SCons (SEmp [str " s5"]) SNil) [str " b2"]) [str " c4"]
+                    (SCal [str " l1"] (str "f") [] (Some (c09_f (FVar (c09_v "a")), [([], c09_f (FVar (AName [str " arg"] (str "b"))))])) [] []))
+           SNil))
+          [str " c6"]];
+     a_ceof := [str " eof"] |}.
+
+Definition c09_adoc : text :=
+  str "type t=// ct" ++ [10] ++ str "int;proc f(a// pa" ++ [10] ++ str ":int// pb" ++ [10] ++ str ",ref// pc" ++ [10] ++ str "b:t// pd" ++ [10]
+  ++ str ")// pe" ++ [10] ++ str "{var x// va" ++ [10] ++ str ":int// vb" ++ [10] ++ str ";x:=1+// e1" ++ [10] ++ str "2;if// i1" ++ [10]
+  ++ str "(a// i2" ++ [10] ++ str ")// i3" ++ [10] ++ str "{// s5" ++ [10] ++ str ";// b2" ++ [10] ++ str "}// c4" ++ [10] ++ str "else// l1" ++ [10]
+  ++ str "f(a,// arg" ++ [10] ++ str "b);// c6" ++ [10] ++ str "}// eof" ++ [10].
+
+Definition c09_aout : text :=
+  str "type t = int;" ++ [10; 10]
+  ++ str "proc f(" ++ [10] ++ str "  // pa" ++ [10] ++ str "  a: int," ++ [10] ++ str "  // pc" ++ [10] ++ str "  ref b: t" ++ [10] ++ str ") {" ++ [10]
+  ++ str "  // va" ++ [10] ++ str "  // vb" ++ [10] ++ str "  var x: int;" ++ [10; 10]
+  ++ str "  // e1" ++ [10] ++ str "  x := 1 + 2;" ++ [10]
+  ++ str "  if (a) {" ++ [10] ++ str "    // s5" ++ [10] ++ str "    ;" ++ [10] ++ str "  } else" ++ [10]
+  ++ str "    // l1" ++ [10] ++ str "    // arg" ++ [10] ++ str "    f(a, b);" ++ [10] ++ str "}" ++ [10].
+
+Example C09_any_ex :
+  lead_only c09_aprog = false /\ aprog_valid c09_aprog = true /\ prog_ok c09_aprog = true
+  /\ length (cmts (flatten c09_aprog)) = 19%nat /\ length (code (flatten c09_aprog)) = 45%nat
+  /\ match lex c09_adoc with Some toks => map tk toks = flatten c09_aprog ++ [Eof] | None => False end
+  /\ formatted_text c09_adoc true 2 = Done c09_aout
+  /\ pp_prog (options_of true 2) c09_aprog = c09_aout
+  /\ match lex c09_adoc, lex c09_aout with
+     | Some toks, Some toks' =>
+         code_kinds toks' = code_kinds toks /\ length (code_kinds toks) = 46%nat
+         /\ comment_bodies toks' = [str "pa"; str "pc"; str "va"; str "vb"; str "e1"; str "s5"; str "l1"; str "arg"]
+     | _, _ => False
+     end
+  /\ cmts (flatten (kept c09_aprog)) = [str " pa"; str " pc"; str " va"; str " vb"; str " e1"; str " s5"; str " l1"; str " arg"]
+  /\ lead_only (kept c09_aprog) = true.
+Proof. vm_compute. repeat split; reflexivity. Qed.
+
+(* ... and the instance obtained THROUGH the theorem, for all option settings *)
+Example C09_document_any_thm_ex : forall ins ts,
+  exists txt toks', formatted_text c09_adoc ins ts = Done txt /\ lex txt = Some toks' /\
+    match lex c09_adoc with Some toks => code_kinds toks' = code_kinds toks | None => False end /\
+    Forall (fun t => terr t = []) toks'.
+Proof.
+  intros ins ts. destruct (lex c09_adoc) as [toks|] eqn:El; [|vm_compute in El; discriminate].
+  assert (H1 : prog_ok c09_aprog = true) by (vm_compute; reflexivity).
+  assert (H3 : aprog_valid c09_aprog = true) by (vm_compute; reflexivity).
+  assert (H5 : map tk toks = flatten c09_aprog ++ [Eof]) by (vm_compute in El; injection El as <-; vm_compute; reflexivity).
+  destruct (C09_document_any c09_aprog c09_adoc toks ins ts H1 H3 El H5) as (txt & toks' & E1 & E2 & E3 & E4).
+  exists txt, toks'. repeat split; assumption.
+Qed.
